@@ -292,7 +292,7 @@ class _FakeStream(object):
 
 class FakePopen(object):
     """Stand-in for ffprobe / ffmpeg: a synthetic video whose frame k is filled with the byte values (k, k+1, k+2)."""
-    N, W, H, FPS = 9, 4, 3, 25
+    N, W, H, FPS = 40, 4, 3, 25
     spawned = 0
 
     def __init__(self, command, **kw):
@@ -365,6 +365,8 @@ def w_video(ctx, rng, i):
         if n:
             order = [int(v) for v in rng.integers(0, n, 6)]
             order += [order[-1], order[-1]]                    # the same element twice in a row
+            a = int(rng.integers(0, max(1, n // 3)))
+            order += [a, min(n - 1, a + int(rng.integers(9, 25))), min(n - 1, a + 26), min(n - 1, a + 27)]   # long forward skips, then on
             order += list(range(n)) if rng.random() < 0.5 else list(range(n - 1, -1, -1))
         for j in order:
             got = frame_id(ll[j])
